@@ -1,6 +1,72 @@
 package rules
 
-import "gogenvet/fw"
+import (
+	"go/ast"
+	"go/types"
 
+	"gogenvet/fw"
+)
+
+// R2.2 (operand placement is monotone) is not implemented: see DESIGN.md.
 func r22(c *fw.Ctx) {}
-func r23(c *fw.Ctx) {}
+
+// R2.3: the two sibling container tables - index (getIdxValTypes) and range (getKeyValTypes) - accept the
+// same pointer-to-array operands. Go allows both `p[i]` and `range p` for p of type *A where A's underlying
+// type is an array (a named array type included). Each sibling's `*types.Pointer` arm is classified by
+// whether a named element type is unwrapped to its underlying type before the array test; they must agree.
+func r23(c *fw.Ctx) {
+	const rule = "R2.3"
+	type res struct {
+		found, arrayTest, unwrapsNamed bool
+		pos                            ast.Node
+	}
+	classify := func(name string) res {
+		var r res
+		fd, p := needDecl(c, rule, name)
+		if fd == nil {
+			return r
+		}
+		info := p.TypesInfo
+		ast.Inspect(fd.Body, func(n ast.Node) bool {
+			cc, ok := n.(*ast.CaseClause)
+			if !ok || len(cc.List) != 1 || !namedIs(info.TypeOf(cc.List[0]), "go/types", "Pointer") {
+				return true
+			}
+			if r.found {
+				return true
+			}
+			r.found, r.pos = true, cc
+			ast.Inspect(cc, func(m ast.Node) bool {
+				switch x := m.(type) {
+				case *ast.TypeAssertExpr:
+					if x.Type != nil && namedIs(info.TypeOf(x.Type), "go/types", "Array") {
+						r.arrayTest = true
+					}
+				case *ast.CaseClause:
+					for _, e := range x.List {
+						if namedIs(info.TypeOf(e), "go/types", "Array") {
+							r.arrayTest = true
+						}
+					}
+				case *ast.CallExpr:
+					// the named element is unwrapped to its underlying type somewhere in the arm
+					if fn, _ := callee(info, x).(*types.Func); fn != nil && (fn.Name() == "getUnderlying" || fn.Name() == "Underlying") {
+						r.unwrapsNamed = true
+					}
+				}
+				return true
+			})
+			return true
+		})
+		return r
+	}
+	idx := classify("(*CodeBuilder).getIdxValTypes")
+	rng := classify("(*forRangeStmt).getKeyValTypes")
+	if !idx.found || !rng.found || !idx.arrayTest || !rng.arrayTest {
+		c.Undecided(rule, "pointer-arms", 0, "the pointer-to-array arms of the index and range tables were not both found (index: %+v, range: %+v)", idx.found && idx.arrayTest, rng.found && rng.arrayTest)
+		return
+	}
+	c.Check(idx.unwrapsNamed == rng.unwrapsNamed, rule, "getKeyValTypes/pointer-to-named-array", rng.pos.Pos(),
+		"index accepts a pointer to a named array type (unwraps the element to its underlying type: %v) but range does not (%v): `for i := range p` with p *A, type A [3]int is rejected although p[0] is accepted and Go accepts both", idx.unwrapsNamed, rng.unwrapsNamed)
+	_ = fw.Mod
+}
